@@ -4,6 +4,7 @@ U = "core/UnboundedSPSCQueue.h"
 BW = "backend/BackendWorker.h"
 TC = "core/ThreadContextManager.h"
 LM = "core/LoggerManager.h"
+MAC = "LogMacros.h"
 CASES = [
  # ---------------- C01
  dict(name="c01-commit_write-relaxed", ids=["C01"], rule="C01.R1b", subs=[(B, "_atomic_writer_pos.store(_writer_pos, std::memory_order_release)", "_atomic_writer_pos.store(_writer_pos, std::memory_order_relaxed)")]),
@@ -621,4 +622,54 @@ CASES = [
       }
       _logger_removal_flags.clear();""")]),
  dict(name="c17-remove_logger-flag-before-invalid", ids=["C17"], rule="C17.R3e", subs=[(LM, "    logger->mark_invalid();\n    _has_invalidated_loggers.store(true, std::memory_order_release);", "    _has_invalidated_loggers.store(true, std::memory_order_release);\n    logger->mark_invalid();")]),
+
+ # ---------------- C16
+ dict(name="c16-warning-wired-to-info", ids=["C16"], rule="C16.R1", subs=[(MAC, """  #define QUILL_LOG_WARNING(logger, fmt, ...)                                                      \\
+    QUILL_LOGGER_CALL(QUILL_LIKELY, logger, nullptr, quill::LogLevel::Warning, fmt, ##__VA_ARGS__)""", """  #define QUILL_LOG_WARNING(logger, fmt, ...)                                                      \\
+    QUILL_LOGGER_CALL(QUILL_LIKELY, logger, nullptr, quill::LogLevel::Info, fmt, ##__VA_ARGS__)""")]),
+ dict(name="c16-args-evaluated-before-guard", ids=["C16"], rule="C16.R1a", subs=[(MAC, """#define QUILL_LOGGER_CALL_LIMIT_EVERY_N(n_occurrences, likelyhood, logger, tags, log_level, fmt, ...) \\
+  do                                                                                                  \\
+  {                                                                                                   \\
+    if (likelyhood(logger->template should_log_statement<log_level>()))                               \\
+    {                                                                                                 \\
+      thread_local uint64_t call_count = 0;                                                           \\
+      thread_local uint64_t next_log_at = 0;                                                          \\
+      if (call_count == next_log_at)                                                                  \\
+      {                                                                                               \\
+        QUILL_LOGGER_CALL(likelyhood, logger, tags, log_level, fmt, ##__VA_ARGS__);                   \\
+        next_log_at += n_occurrences;                                                                 \\
+      }                                                                                               \\
+      ++call_count;                                                                                   \\
+    }                                                                                                 \\
+  } while (0)""", """#define QUILL_LOGGER_CALL_LIMIT_EVERY_N(n_occurrences, likelyhood, logger, tags, log_level, fmt, ...) \\
+  do                                                                                                  \\
+  {                                                                                                   \\
+    {                                                                                                 \\
+      thread_local uint64_t call_count = 0;                                                           \\
+      thread_local uint64_t next_log_at = 0;                                                          \\
+      if (call_count == next_log_at)                                                                  \\
+      {                                                                                               \\
+        logger->template log_statement<QUILL_IMMEDIATE_FLUSH, true>(log_level, nullptr, ##__VA_ARGS__);                   \\
+        next_log_at += n_occurrences;                                                                 \\
+      }                                                                                               \\
+      ++call_count;                                                                                   \\
+    }                                                                                                 \\
+  } while (0)""")]),
+ dict(name="c16-should_log-strict", ids=["C16"], rule="C16.R2", subs=[("core/LoggerBase.h", """  QUILL_NODISCARD QUILL_ATTRIBUTE_HOT bool should_log_statement(LogLevel log_statement_level) const noexcept
+  {
+    return log_statement_level >= get_log_level();""", """  QUILL_NODISCARD QUILL_ATTRIBUTE_HOT bool should_log_statement(LogLevel log_statement_level) const noexcept
+  {
+    return log_statement_level > get_log_level();""")]),
+ dict(name="c16-dynamic-level-reset-removed", ids=["C16"], rule="C16.R4", subs=[(BW, "      transit_event->dynamic_log_level = LogLevel::None;\n", "")]),
+ dict(name="c16-sink-level-threshold-inverted", ids=["C16"], rule="C16.R3a", subs=[("sinks/Sink.h", "    if (log_level < _log_level.load(std::memory_order_relaxed))\n    {\n      return false;", "    if (log_level > _log_level.load(std::memory_order_relaxed))\n    {\n      return false;")]),
+ dict(name="c16-any_of-filters", ids=["C16"], rule="C16.R3b", subs=[("sinks/Sink.h", "return std::all_of(_local_filters.begin(), _local_filters.end(),", "return std::any_of(_local_filters.begin(), _local_filters.end(),")]),
+ dict(name="c16-dynamic-macro-static-metadata", ids=["C16"], rule="C16.R1c", subs=[(MAC, "      QUILL_DEFINE_MACRO_METADATA(QUILL_FUNCTION_NAME, fmt, tags, quill::LogLevel::Dynamic);                  \\", "      QUILL_DEFINE_MACRO_METADATA(QUILL_FUNCTION_NAME, fmt, tags, quill::LogLevel::Info);                  \\")]),
+ dict(name="c16-write_log-metadata-level", ids=["C16"], rule="C16.R3e", subs=[(BW, """                        thread_name, _process_id, transit_event.logger_base->logger_name,
+                        transit_event.log_level(), log_level_description, log_level_short_code,""", """                        thread_name, _process_id, transit_event.logger_base->logger_name,
+                        transit_event.macro_metadata->log_level(), log_level_description, log_level_short_code,""")]),
+ dict(name="c16-override-formatter-of-first-sink", ids=["C16"], rule="C16.R3", subs=[(BW, """          log_to_write = sink->_override_pattern_formatter->format(""", """          log_to_write = transit_event.logger_base->sinks.front()->_override_pattern_formatter->format(""")]),
+ dict(name="c16-logj-error-limit-level", ids=["C16"], rule="C16.R1", subs=[(MAC, """  #define QUILL_LOGJ_ERROR_LIMIT(min_interval, logger, fmt, ...)                                   \\
+    QUILL_LOGGER_CALL_LIMIT(min_interval, QUILL_LIKELY, logger, nullptr, quill::LogLevel::Error,   \\""", """  #define QUILL_LOGJ_ERROR_LIMIT(min_interval, logger, fmt, ...)                                   \\
+    QUILL_LOGGER_CALL_LIMIT(min_interval, QUILL_LIKELY, logger, nullptr, quill::LogLevel::Warning,   \\""")]),
+ dict(name="c16-transit-log_level-ignores-dynamic", ids=["C16"], rule="C16.R4c", subs=[("backend/TransitEvent.h", "    if (macro_metadata->log_level() != LogLevel::Dynamic)\n    {\n      return macro_metadata->log_level();", "    if (macro_metadata->log_level() != LogLevel::None)\n    {\n      return macro_metadata->log_level();")]),
 ]
